@@ -152,6 +152,12 @@ def run(ctx):
         if bad:
             raise InfraError("conflicts driver (%s): request %s failed with a non-conflict error: %s"
                              % (name, _req(bad[0]), bad[0]["res"]["result"]))
+        for ev in rows:
+            if ev["ev"] == "Request" and len(samples) < 5 and ev["res"]["result"] == ("conflict" if len(samples) % 2 == 0 else "accepted") \
+                    and any(not c["ready"] for c in ev["st"]["changes"]):
+                samples.append({"driver": name, "request": _req(ev), "result": ev["res"]["result"],
+                                "changes_after": ["%s{%s}%s" % (c["kind"], ",".join(c["snaps"]), "" if not c["ready"] else " ready")
+                                                  for c in ev["st"]["changes"]]})
         r = conf.two_pass(ctx, "TraceConflicts", "TraceConflicts.cfg", out, name, timeout=ctx.pick(1800, 7200))
         ctx.log("trace validation %s: %d events, accepted=%s" % (name, len(rows), r["accepted"]))
         if not r["accepted"]:
@@ -171,12 +177,6 @@ def run(ctx):
         n, smp = _weak_exclusive(rows)
         weak_n += n
         weak_sample = weak_sample or smp
-        for ev in rows:
-            if ev["ev"] == "Request" and len(samples) < 5 and ev["res"]["result"] == ("conflict" if len(samples) % 2 == 0 else "accepted") \
-                    and any(not c["ready"] for c in ev["st"]["changes"]):
-                samples.append({"driver": name, "request": _req(ev), "result": ev["res"]["result"],
-                                "changes_after": ["%s{%s}%s" % (c["kind"], ",".join(c["snaps"]), "" if not c["ready"] else " ready")
-                                                  for c in ev["st"]["changes"]]})
         if name == "snapstate":
             selfcheck = conf.corruption_check(ctx, "TraceConflicts", "TraceConflicts.cfg", out, _corrupt, "conf")
     if divergences and not violations:
@@ -190,6 +190,8 @@ def run(ctx):
                      % (weak_n, json.dumps(weak_sample), len(alone.trace)))
 
     violations = _dedupe(violations)
+    if not samples and violations:
+        samples = [{"violating_case": violations[0].key}]
     return Result(
         level="model_checking",
         coverage={
